@@ -52,7 +52,7 @@ def gen_cases(rng, tier, ctx):
     # the bodies on which the end-of-data rules of the mode encoders and the planner's count of written codewords matter (symbol lists
     # with capacities one or two apart; a long Base256 run followed by another scheme that ends at a capacity), inside an envelope and
     # behind an FNC1 start: one codeword precedes the body, which moves every boundary by one
-    fam = gen.adjacent_capacity_cases(rng, tier) + [c for c in gen.constant_cases(rng, tier) if c['cat'].startswith('b256-then-')]
+    fam = gen.adjacent_capacity_cases(rng, tier, pre=1) + gen.adjacent_capacity_cases(rng, tier) + [c for c in gen.constant_cases(rng, tier) if c['cat'].startswith('b256-then-')]
     for c in fam:
         g = c['cfg']
         if tier == 'quick' and g['modes'] != 63:
